@@ -73,7 +73,7 @@ const (
 
 func gen(r *rand.Rand, long bool) *common.History {
 	h := &common.History{}
-	oneToOne := r.IntN(6) == 0
+	oneToOne := r.IntN(6) == 0 && !long
 	mb, fb := r.IntN(3), r.IntN(3)
 	life := []int64{0, 30e9, 5e9, 1e9, 100e6}[r.IntN(5)]
 	k := 1 + r.IntN(3)
